@@ -8,6 +8,9 @@ CONSTANTS
   Redundant = FALSE
   Bug = "none"
   Depth = 4
+  GenBatch = FALSE
+  GenHold = FALSE
+  StartOn = FALSE
 SPECIFICATION GSpec
 CONSTRAINT Emit
 CHECK_DEADLOCK FALSE
